@@ -80,6 +80,9 @@ type c06Case struct {
 	Off      int      `json:"off"`
 	RightKey bool     `json:"rightKey"`
 	Cache    string   `json:"cache"` // history of the UID at the server: none | idle | busy (C07)
+	Admin    bool     `json:"admin"` // server configuration (C07): an AdminUID is configured
+	NB       int      `json:"nb"`    // number of configured BypassUID entries
+	Probe    string   `json:"probe"` // which UID the packet names: std | zero | ones | bypass | admin | variant | random
 	Tampers  []string `json:"tampers"`
 	Verdict  string   `json:"verdict"`
 	API      bool     `json:"api"`
@@ -202,7 +205,9 @@ type c06Rig struct {
 	pub     crypto.PublicKey
 	pubRaw  []byte
 	wrongPb []byte // public key of some other static key
-	now     atomic.Int64
+	now     atomic.Pointer[time.Time] // the server clock (any time.Time: centuries away from the stamps too)
+	clockOverride *time.Time
+	nextStamp     *int64 // C07: the next captured base packet seals exactly this stamp
 	base    time.Time
 	redirL  *kit.VListener
 	redirCh chan *c06RedirRec
@@ -215,7 +220,8 @@ type c06Rig struct {
 	lastPan atomic.Value
 }
 
-func (r *c06Rig) serverNow() time.Time { return time.Unix(0, r.now.Load()) }
+func (r *c06Rig) serverNow() time.Time { return *r.now.Load() }
+func (r *c06Rig) setNow(t time.Time)   { r.now.Store(&t) }
 
 var c06CertOnce sync.Once
 var c06Cert tls.Certificate
@@ -262,7 +268,7 @@ func c06NewRig(id int, rng *kit.Rng, dir string) (*c06Rig, error) {
 	_, wpub, _ := ecdh.GenerateKey(crand.Reader)
 	r.wrongPb = append([]byte{}, ecdh.Marshal(wpub)...)
 	r.base = time.Unix(time.Now().Unix(), 0)
-	r.now.Store(r.base.UnixNano())
+	r.setNow(r.base)
 	world := common.WorldState{Rand: crand.Reader, Now: r.serverNow}
 
 	for i, l := range c06UserLabels {
@@ -494,6 +500,7 @@ type c06Conc struct {
 	NumConn  int    `json:"num_conn"`
 	OffNs    int64  `json:"server_minus_stamp_ns"`
 	ClientNs int64  `json:"client_clock_ns"`
+	Stamp    *int64 `json:"client_stamp_s,omitempty"` // overrides ClientNs: the client clock is exactly this many seconds
 	Label    string `json:"user"`
 }
 
@@ -569,13 +576,20 @@ func (r *c06Rig) clientSetup(cs *c06Case, c c06Conc) (remote client.RemoteConnCo
 		UDP: cs.Unord, BrowserSig: c.Sig, Transport: c.Tr,
 	}
 	ct := time.Unix(0, c.ClientNs)
+	if c.Stamp != nil { // any int64 number of seconds can be put on the wire
+		ct = time.Unix(*c.Stamp, 0)
+	}
 	_, remote, auth, err = raw.ProcessRawConfig(common.WorldState{Rand: crand.Reader, Now: func() time.Time { return ct }})
 	if err != nil {
 		return
 	}
 	auth.SessionId = c.Sid // ck-client draws it per session; the statement quantifies over all of them
 	// the server clock relative to the whole-second stamp the client seals
-	r.now.Store(time.Unix(ct.UTC().Unix(), 0).Add(time.Duration(c.OffNs)).UnixNano())
+	if c.Stamp != nil {
+		r.setNow(r.base.Add(time.Duration(c.OffNs))) // an ordinary server clock; the caller may move it afterwards
+	} else {
+		r.setNow(time.Unix(ct.UTC().Unix(), 0).Add(time.Duration(c.OffNs)))
+	}
 	return
 }
 
